@@ -41,12 +41,15 @@ func NewManyToOne(size int, alerter Alerter) *ManyToOne {
 func (d *ManyToOne) Set(data GenericDataType) {
 	for {
 		writeIndex := atomic.AddUint64(&d.writeIndex, 1)
+		VerifAt("m2o.set.claimed", writeIndex)
 		idx := writeIndex % uint64(len(d.buffer))
 		old := atomic.LoadPointer(&d.buffer[idx])
+		VerifAt("m2o.set.loaded", writeIndex)
 
 		if old != nil &&
 			(*bucket)(old) != nil &&
 			(*bucket)(old).seq > writeIndex-uint64(len(d.buffer)) {
+			VerifAt("m2o.set.collision", writeIndex)
 			log.Println("Diode set collision: consider using a larger diode")
 			continue
 		}
@@ -57,10 +60,12 @@ func (d *ManyToOne) Set(data GenericDataType) {
 		}
 
 		if !atomic.CompareAndSwapPointer(&d.buffer[idx], old, unsafe.Pointer(newBucket)) {
+			VerifAt("m2o.set.casfailed", writeIndex)
 			log.Println("Diode set collision: consider using a larger diode")
 			continue
 		}
 
+		VerifAt("m2o.set.stored", writeIndex)
 		return
 	}
 }
@@ -70,7 +75,13 @@ func (d *ManyToOne) Set(data GenericDataType) {
 func (d *ManyToOne) TryNext() (data GenericDataType, ok bool) {
 	// Read a value from the ring buffer based on the readIndex.
 	idx := d.readIndex % uint64(len(d.buffer))
+	VerifAt("m2o.next.enter", d.readIndex)
 	result := (*bucket)(atomic.SwapPointer(&d.buffer[idx], nil))
+	if result == nil {
+		VerifAt("m2o.next.swapped.nil", d.readIndex)
+	} else {
+		VerifAt("m2o.next.swapped", result.seq)
+	}
 
 	// When the result is nil that means the writer has not had the
 	// opportunity to write a value into the diode. This value must be ignored
@@ -119,6 +130,7 @@ func (d *ManyToOne) TryNext() (data GenericDataType, ok bool) {
 		dropped := result.seq - d.readIndex
 		d.readIndex = result.seq
 		d.alerter.Alert(int(dropped))
+		VerifAt("m2o.next.alerted", dropped)
 	}
 
 	// Only increment read index if a regular read occurred (where seq was
